@@ -285,7 +285,7 @@ Qed.
 Lemma dnl_drain : forall t0 c sv ad life ops d k, life < Z.of_N d ->
   let s0 := run (start t0 c sv ad life) ops in
   let s := run (start t0 c sv ad life) (ops ++ [OAdv d] ++ repeat ODnl k) in
-  length (dnlq s) = (length (dnlq s0) - 100 * k)%nat /\ length (dnl s) = length (dnlq s).
+  length (dnlq s) = (length (dnlq s0) - dnl_batch * k)%nat /\ length (dnl s) = length (dnlq s).
 Proof.
   intros t0 c sv ad life ops d k Hd s0 s. unfold s. rewrite !run_app. fold s0.
   pose proof (reach_d t0 c sv ad life ops) as D0. fold s0 in D0.
@@ -298,7 +298,7 @@ Qed.
 (* the whole of "observed after a quiescent period longer than every lifetime involved" in one statement *)
 Lemma quiescence : forall t0 c sv ad life ops L d1 d2 k, 0 <= L -> lifetimes_within L ops -> L <= Z.of_N d1 -> life < Z.of_N d2 ->
   let s1 := run (start t0 c sv ad life) (ops ++ [OAdv d1; OTick]) in
-  (length (dnlq s1) <= 100 * k)%nat ->
+  (length (dnlq s1) <= dnl_batch * k)%nat ->
   let s := run (start t0 c sv ad life) ((ops ++ [OAdv d1; OTick]) ++ [OAdv d2] ++ repeat ODnl k) in
   E s = [] /\ npit s = 0 /\ tokmap s = [] /\ heap s = [] /\ dnl s = [] /\ dnlq s = [] /\
   c08_always (dump_of s) = [] /\ c08_quiescent (dump_of s) = [].
@@ -314,7 +314,8 @@ Proof.
   assert (HE : E s = []).
   { unfold s. rewrite run_app. fold s1. rewrite run_app. change (run s1 [OAdv d2]) with (set_now s1 (now s1 + Z.of_N d2)).
     rewrite <- sweeps_run. destruct (E_sweeps k (set_now s1 (now s1 + Z.of_N d2))) as [A _]. rewrite A. exact E1. }
-  assert (Hq : dnlq s = []) by (destruct (dnlq s); [reflexivity|simpl in Q1; lia]).
+  assert (Hq : dnlq s = []).
+  { destruct (dnlq s) as [|x0 t0'] eqn:Eq0; [reflexivity|]. exfalso. cbn [length] in Q1. remember (dnl_batch * k)%nat as bk. clear - Q1 Hk. lia. }
   assert (Hd : dnl s = []) by (destruct (dnl s); [reflexivity|rewrite Hq in Q2; simpl in Q2; lia]).
   destruct (pit_empty_all s (g_p _ _ G) HE) as [A1 [A2 A3]].
   repeat (split; [assumption|]). split; [apply (oracle_always s _ G D)|apply (oracle_quiescent s _ G HE Hd Hq)].
